@@ -390,7 +390,7 @@ NSHARD = 16
 
 
 def plan(tier):
-    n = 60 if tier == 'quick' else 2500
+    n = 130 if tier == 'quick' else 2500
     return [{'kind': 'hyp', 'shard': i, 'examples': n} for i in range(NSHARD)]
 
 
